@@ -147,10 +147,11 @@ def ind(lines, n=1):
 
 
 class Program:
-    __slots__ = ('desc', 'family', 'shape', 'src', 'args', 'ctx', 'wrapper')
+    __slots__ = ('desc', 'family', 'shape', 'src', 'args', 'ctx', 'wrapper', 'sig')
 
-    def __init__(self, desc, family, shape, src, args, ctx):
+    def __init__(self, desc, family, shape, src, args, ctx, sig=None):
         self.desc = desc
+        self.sig = sig              # optional structural keys that replace diff/shape in a violation signature
         self.family = family
         self.shape = shape          # names the program *class* (goes into violation signatures)
         self.src = src              # functions only; MODULE_PRELUDE is prepended by the loader
@@ -165,7 +166,7 @@ class Program:
 
     def to_json(self):
         return {'desc': list(self.desc), 'family': self.family, 'shape': self.shape, 'src': self.src,
-                'args': self.args, 'ctx': self.ctx, 'wrapper': self.wrapper}
+                'args': self.args, 'ctx': self.ctx, 'wrapper': self.wrapper, 'sig': self.sig}
 
 
 def prog_from_json(d) -> Program:
@@ -177,6 +178,7 @@ def prog_from_json(d) -> Program:
     p.args = list(d['args'])
     p.ctx = d['ctx']
     p.wrapper = d.get('wrapper')
+    p.sig = d.get('sig')
     return p
 
 
@@ -836,7 +838,8 @@ def _e3():
                   + (', xsss' if wt == 2 else '')]
         body = [f'with {c}:'] + ind([ln.format(**subst) for ln in lines])
         return Program(('E3', b, pr, st, wt, c, op), 'E', f'E3:{b}:{pr}:{st}:wt{wt}:{op}:w{W}',
-                       fn('f', [('u', 's64'), ('v', 's64')], body), ['s64', 's64'], 'F64E')
+                       fn('f', [('u', 's64'), ('v', 's64')], body), ['s64', 's64'], 'F64E',
+                       sig={'projection': pr, 'store': st})
     return gen, build
 
 
